@@ -136,6 +136,15 @@ ROUND12 = {
 for _p, _t in ROUND12.items():
     CHECKS[_p]["text"] += " " + _t
 
+ROUND13 = {
+ "C11": "Round 13: requests whose block mapping is refused (mmap wrapped in both flavours) while >= 2 other threads are inside allocator calls.",
+ "C14": "Round 13: one-shot state armed in front of failing label/section/align/embed calls on all six emitters; a failing call must clear what a successful call of the same kind clears.",
+ "C19": "Round 13: counterexamples are written out as witnessed and read back from children that die later (RSS limit, watchdog).",
+ "C20": "Round 13: every case is emitted by the instruction id of the C++ enum, so the mnemonic oracle does not depend on string_to_inst_id().",
+}
+for _p, _t in ROUND13.items():
+    CHECKS[_p]["text"] += " " + _t
+
 def main():
     props = [json.loads(l) for l in open(os.path.join(HERE, "properties.jsonl"))]
     hooks = subprocess.run(["git", "-C", "/repo", "log", "--format=%H %s"], capture_output=True, text=True).stdout.splitlines()
